@@ -123,7 +123,7 @@ def add_result(st: Stats, res: dict, seed: int, i: int, scn: dict, keep_viol: in
 
 
 def _worker(prop_name: str, master: int, start: int, count: int, tier: str, deadline: float):
-    faulthandler.dump_traceback_later(max(60, int(deadline - _now()) + 60), exit=True)
+    faulthandler.dump_traceback_later(max(60, int(deadline - _now()) + 240), exit=True)   # one runaway scenario on a loaded machine must not turn a run into a harness error too early
     try:
         from . import props
 
@@ -168,7 +168,7 @@ def run_parallel(prop_name: str, master: int, total: int, tier: str, jobs: int, 
         ctx = multiprocessing.get_context("fork")
         with ProcessPoolExecutor(max_workers=jobs, mp_context=ctx) as ex:
             futs = {ex.submit(_worker, prop_name, master, s, min(chunk, total - s), tier, deadline): s for s in starts}
-            for f in as_completed(futs, timeout=budget_s + 300):
+            for f in as_completed(futs, timeout=budget_s + 420):
                 s, st = f.result()
                 results[s] = st
     merged = Stats()
